@@ -160,6 +160,36 @@ func c01Case(c fileCase, viol func(sig, detail string), r *core.Run) {
 						return
 					}
 				}
+				// a consumer that reads a header and hands the rest to io.Copy
+				// (which uses the reader's WriteTo if it has one): the rest is the
+				// rest; the same after a Seek; a drained reader copies nothing
+				if rs5, err := lb.AsLargeBytes(); err == nil {
+					k := b
+					if k > len(content) {
+						k = len(content)
+					}
+					hdr := make([]byte, k)
+					io.ReadFull(rs5, hdr)
+					var rest bytes.Buffer
+					_, cerr := io.Copy(&rest, rs5)
+					if cerr != nil || !bytes.Equal(hdr, content[:k]) || !bytes.Equal(rest.Bytes(), content[k:]) {
+						viol("copy-after-header "+how+" "+c.Writer, fmt.Sprintf("%s: %d-byte header then io.Copy: err=%v, copied %d bytes, want the remaining %d", c, k, cerr, rest.Len(), len(content)-k))
+						return
+					}
+					var again bytes.Buffer
+					if n2, _ := io.Copy(&again, rs5); n2 != 0 {
+						viol("copy-after-eof "+how+" "+c.Writer, fmt.Sprintf("%s: io.Copy from a drained reader delivered %d more bytes", c, n2))
+						return
+					}
+					if pos, err := rs5.Seek(int64(k/2), io.SeekStart); err == nil && pos == int64(k/2) {
+						var tail bytes.Buffer
+						io.Copy(&tail, rs5)
+						if !bytes.Equal(tail.Bytes(), content[k/2:]) {
+							viol("copy-after-seek "+how+" "+c.Writer, fmt.Sprintf("%s: Seek(%d) then io.Copy: copied %d bytes, want %d", c, k/2, tail.Len(), len(content)-k/2))
+							return
+						}
+					}
+				}
 				// sniff a prefix, ask for the length, rewind, stream
 				rs2, err := lb.AsLargeBytes()
 				if err != nil {
